@@ -186,6 +186,11 @@ pub fn oracle(case: &Case, st: &mut Stats) -> Verdict {
         } else {
             "truncated"
         };
+        if let Some(cut) = &referral_owner {
+            if dt.authority.iter().any(|r| r.rdata_names.first().map_or(false, |(_, n, _)| n.name.eq_fold(cut))) {
+                st.class(&format!("referral-whose-cut-is-its-own-name-server: {size_class}"));
+            }
+        }
         if t.len() > 400 {
             st.class(size_class);
             st.nontrivial(&(&req, limit), || json!({"query": what, "tcp_len": t.len(), "udp_len": u.len(), "mandatory_end": p_end, "class": size_class}));
